@@ -52,6 +52,15 @@ def gram_cov(ctx, N, rule):
         ok = r.items is not None and len(r.items) == 2
         if ctx.ob(rule, f"pcovr_covariance(return_isqrt) returns (C~, C^-1/2) [{name}]", ok, f"{r!r}", ctx.site(fc), name):
             ctx.compare(rule, f"returned C^-1/2 is the eigen inverse square root of X^T X [{name}]", N, r.items[1], ref, ctx.site(fc), name)
+        # low-rank route (rank < min(n, m)): randomized SVD of X, eigenvalue = s^2 compared with rcond
+        rk, itp, rs = integer("R"), integer("IT"), scalar("seed")
+        I, st = ctx.interp(order=[("R", "<", "N"), ("R", "<", "M")]), State()
+        r = ctx.call_func(I, st, fc, mix, X, Y, rcond=rc, return_isqrt=True, rank=rk, iterated_power=itp, random_state=rs)
+        I2, s2 = ctx.interp(order=[("R", "<", "N"), ("R", "<", "M")]), State()
+        ref = ctx.call_func(I2, s2, "ref.pcovr_ref.inverse_sqrt_covariance_lowrank", X, rc, rk, itp, rs)
+        if r.items is not None and len(r.items) == 2:
+            ctx.compare(rule, f"low-rank C^-1/2 (rank < min(n, m)) from the randomized SVD of X [{name}]", N, r.items[1], ref, ctx.site(fc), name)
+            ctx.no_shape_conflicts("Shape", f"pcovr_covariance low-rank [{name}]", I, 0, ctx.site(fc), name)
 
 
 def decomposition_stubs(record, K="K"):
@@ -162,6 +171,11 @@ def spectrum(ctx, N, cls_qual=PCOVR, label="PCovR"):
             ref = ctx.call_func(I2, s2, "ref.pcovr_ref.leading_components", mat, integer("K"))
             for nm, a, b in zip(("U", "S", "Vt"), r.items, ref.items):
                 ctx.compare("R-SPECTRUM", f"{label}._decompose_full: {nm} = leading k of the sign-fixed economy SVD", N, a, b, site)
+        else:
+            I2, s2 = ctx.interp(), State()
+            ref = ctx.call_func(I2, s2, "ref.pcovr_ref.kernel_leading_components", mat, integer("K"), base["tol"])
+            for nm, a, b in zip(("U", "S", "Vt"), r.items, ref.items):
+                ctx.compare("R-SPECTRUM", f"{label}._decompose_full: {nm} = leading k of the SVD with sub-tolerance triplets zeroed, signs fixed", N, a, b, site)
         for nm, a, dims in zip(("U", "S", "Vt"), r.items, (("n", "K"), ("K",), ("K", "n"))):
             ctx.shape_is("Shape", f"{label}._decompose_full: shape of {nm}", a, dims, site)
         # R-NESTED: the decomposed matrix and the SVD do not depend on k; k only slices
@@ -180,23 +194,31 @@ def spectrum(ctx, N, cls_qual=PCOVR, label="PCovR"):
             continue
         for nm, a, dims in zip(("U", "S", "Vt"), r.items, (("n", "K"), ("K",), ("K", "n"))):
             ctx.shape_is("Shape", f"{label}._decompose_truncated[{solver}]: shape of {nm}", a, dims, site)
-        if label == "PCovR":
-            # exact agreement with the reference (ARPACK: ascending output, all three factors reversed together)
+        if True:
+            # exact agreement with the reference (ARPACK: ascending output, all three factors reversed together;
+            # KernelPCovR additionally zeroes the sub-tolerance triplets)
             I2, s2 = ctx.interp(), State()
+            kern = label != "PCovR"
             if solver == "arpack":
                 v0s = [e.get("v0") for e in I.events[lo:] if e["kind"] == "rng-sink" and e.get("v0") is not None]
                 if v0s:
-                    ref = ctx.call_func(I2, s2, "ref.pcovr_ref.leading_components_arpack", mat, integer("K"), b2["tol"], v0s[0])
+                    ref = ctx.call_func(I2, s2, "ref.pcovr_ref.kernel_components_arpack" if kern else "ref.pcovr_ref.leading_components_arpack", mat, integer("K"), b2["tol"], v0s[0])
                 else:
                     ref = None
             else:
                 seeds = [e.get("seed") for e in I.events[lo:] if e["kind"] == "rng-sink" and e.get("seed") is not None]
-                ref = ctx.call_func(I2, s2, "ref.pcovr_ref.leading_components_randomized", mat, integer("K"), b2["iterated_power"] if isinstance(b2["iterated_power"], V) else vconst(b2["iterated_power"]), seeds[0]) if seeds else None
+                itp = b2["iterated_power"] if isinstance(b2["iterated_power"], V) else vconst(b2["iterated_power"])
+                if not seeds:
+                    ref = None
+                elif kern:
+                    ref = ctx.call_func(I2, s2, "ref.pcovr_ref.kernel_components_randomized", mat, integer("K"), itp, seeds[0], b2["tol"])
+                else:
+                    ref = ctx.call_func(I2, s2, "ref.pcovr_ref.leading_components_randomized", mat, integer("K"), itp, seeds[0])
             if ctx.ob("R-SPECTRUM", f"{label}._decompose_truncated[{solver}]: solver call located", ref is not None, "rng sink with start vector / seed", site):
                 for nm, a_, b_ in zip(("U", "S", "Vt"), r.items, ref.items):
                     ctx.compare("R-SPECTRUM", f"{label}._decompose_truncated[{solver}]: {nm} == reference (consistent ordering of the triple)", N, a_, b_, site)
-        elif solver == "arpack":
-            # KernelPCovR zeroes small singular directions afterwards; check the reversal structurally
+        if label != "PCovR" and solver == "arpack":
+            # KernelPCovR zeroes small singular directions afterwards; check the reversal structurally too
             def reversed_arg(t, which):
                 # the svds factor must occur only under a [::-1] (rows) / [:, ::-1] (columns) view
                 from .. import tq as _tq
